@@ -192,6 +192,7 @@ type c11Expr struct {
 	rawSize int
 	pkgEnc  int
 	decl    *c11Obj
+	followed bool // a nested block inside a deferred block that is followed by further statements (set by the oracle)
 }
 
 // operand kinds of c11OpSpec
